@@ -12,8 +12,8 @@ def run(tier, wd):
     binpath = core.build_harness()
     rnd = random.Random(core.seed())
     q = tier == "quick"
-    alphabet = ["c1", "c2", "d1", "a1", "b1", "e2", "get", "one", "deep", "x", "-f", "-n=7", "-n=zz", "-g", "zz"] if q else \
-               ["c1", "k1", "c2", "d1", "a1", "b1", "bb", "e1", "e2", "x", "-f", "-n=7", "-n=zz", "-n", "-g", "--", "zz", "--force=maybe"]
+    alphabet = ["c1", "c2", "d1", "a1", "b1", "e2", "get", "one", "deep", "x", "-f", "-n=7", "-n=zz", "-g", "zz", "-v"] if q else \
+               ["c1", "k1", "c2", "d1", "a1", "b1", "bb", "e1", "e2", "x", "-f", "-n=7", "-n=zz", "-n", "-g", "--", "zz", "--force=maybe", "-v"]
     trs, rows = tc.run_tree(rep, wd, binpath, alphabet, 3 if q else 4, ["continue", "exit", "panic"], "c07")
     # commands that set their own error policy in their initialiser: the policy of the command that rejects decides
     tc.add_tree(rep, wd, binpath, alphabet, ["continue", "exit", "panic"], "c07-policy", T.policy_tree(), trs, rows)
